@@ -5,15 +5,21 @@ import (
 	"os"
 	"strconv"
 
+	"verif/c01"
 	"verif/c02"
 	"verif/c03"
 	"verif/c04"
+	"verif/c05"
 	"verif/c06"
+	"verif/c07"
+	"verif/c08"
 	"verif/c09"
 	"verif/c10"
 	"verif/c11"
 	"verif/c13"
 	"verif/c14"
+	"verif/c15"
+	"verif/c17"
 	"verif/c18"
 	"verif/c20"
 	"verif/vf"
@@ -24,15 +30,21 @@ var checks = map[string]struct {
 	needs string // binaries ./check must build first
 	run   func(*vf.Run)
 }{
+	"C01": {"translation_validation", "", c01.Run},
 	"C02": {"exploration", "", c02.Run},
 	"C03": {"exploration", "", c03.Run},
 	"C04": {"exploration", "", c04.Run},
+	"C05": {"fault_enumeration", "", c05.Run},
 	"C06": {"exploration", "", c06.Run},
+	"C07": {"exploration", "", c07.Run},
+	"C08": {"exploration", "", c08.Run},
 	"C09": {"exploration", "", c09.Run},
 	"C10": {"exploration", "", c10.Run},
 	"C11": {"exploration", "", c11.Run},
 	"C13": {"exploration", "", c13.Run},
 	"C14": {"exploration", "", c14.Run},
+	"C15": {"exploration", "", c15.Run},
+	"C17": {"exploration", "", c17.Run},
 	"C18": {"exploration", "", c18.Run},
 	"C20": {"exploration", "", c20.Run},
 }
